@@ -369,6 +369,13 @@ def run(ctx):
         "repeated_opens": stress,
         "exhaustive_over": "truncation lengths 0..80",
     }
+    # threads and forked children in a C client (own contexts, handed-over contexts, inherited contexts)
+    from . import client as _client
+    _mv, _ms = _client.run_mt(ctx, "C16", 2.0 if ctx.quick() else 20.0)
+    viol += _mv
+    coverage["multi_threaded_c_client"] = _ms
+    if any("inconclusive" in str(v) or str(v).startswith("exit ") for v in _ms.values()) and not inconclusive:
+        inconclusive = "multi-threaded C client scenario did not complete: %s" % _ms
     finish(ctx, coverage, viol, inconclusive, assumptions=["checks run as root: permission errors are not exercised", "FIFOs excluded (open(O_RDONLY) blocks by POSIX)",
                                                           "posix_fadvise(DONTNEED) after fsync drops clean page-cache pages on the disk-backed file system"])
 
